@@ -78,13 +78,14 @@ exec /usr/bin/gcc "$@"
 def kill_cases(root, seed, rounds=1):
     fails = []; samples = []; n = 0
     for r in range(rounds):
-        for phase in ('detection-before-ack', 'preprocessing', 'compilation', 'idle-then-request'):
-            d = os.path.join(root, f'k{r}{phase}'); shutil.rmtree(d, ignore_errors=True); w = os.path.join(d, 'w'); os.makedirs(w)
+        # every phase over TCP; the two phases that end with "a later client has to start a new server" also over a Unix socket path
+        for phase, uds in [(p_, False) for p_ in ('detection-before-ack', 'preprocessing', 'compilation', 'idle-then-request')] + [('compilation', True), ('idle-then-request', True)]:
+            d = os.path.join(root, f'k{r}{phase}{"u" if uds else ""}'); shutil.rmtree(d, ignore_errors=True); w = os.path.join(d, 'w'); os.makedirs(w)
             cc = os.path.join(d, 'gcc'); marker = os.path.join(d, 'marker')
             flag = os.path.join(d, 'slow')
             open(cc, 'w').write(SLOW.format(flag=flag, pp=f'touch {marker}.pp; sleep 0.8' if phase in ('preprocessing', 'detection-before-ack') else ':', cc=f'touch {marker}.cc; sleep 0.8' if phase == 'compilation' else ':')); os.chmod(cc, 0o755)
             open(os.path.join(w, 'k.c'), 'w').write(f'int k{r}(void){{return {r};}}\n')
-            sc = Sc(os.path.join(d, 'sc'), f'c11k{r}{phase}'); sc.start()
+            sc = Sc(os.path.join(d, 'sc'), f'c11k{r}{phase}', uds=uds); sc.start()
             try:
                 if phase == 'idle-then-request':
                     sc.kill()          # no server is running: the client must start one and proceed
@@ -102,7 +103,7 @@ def kill_cases(root, seed, rounds=1):
                 got = file_state(os.path.join(w, 'k.o'))
                 if os.path.exists(os.path.join(w, 'k.o')): os.remove(os.path.join(w, 'k.o'))
                 subprocess.run(['/usr/bin/gcc', '-c', 'k.c', '-o', 'k.o'], cwd=w); want = file_state(os.path.join(w, 'k.o'))
-                n += 1; line = f'server killed during {phase}: client rc={p.returncode} object {"equals direct compile" if got and want and got[0] == want[0] else "missing/different"}; stderr: {p.stderr.decode(errors="replace")[:120]!r}'
+                n += 1; line = f'{"unix socket" if uds else "tcp"}: server killed during {phase}: client rc={p.returncode} object {"equals direct compile" if got and want and got[0] == want[0] else "missing/different"}; stderr: {p.stderr.decode(errors="replace")[:120]!r}'
                 samples.append(line)
                 if p.returncode == 0 and not (got and want and got[0] == want[0]):
                     fails.append({'kind': 'exit0_wrong_output_after_server_loss', 'detail': line, 'ops': [line]})
@@ -112,6 +113,14 @@ def kill_cases(root, seed, rounds=1):
                     fails.append({'kind': 'silent_failure_after_server_loss', 'detail': line, 'ops': [line]})
                 if phase == 'idle-then-request' and p.returncode != 0:
                     fails.append({'kind': 'client_did_not_start_server', 'detail': line, 'ops': [line]})
+                if phase == 'compilation':
+                    # the server is gone (killed, nothing cleaned up): the next client has to start one and proceed
+                    if os.path.exists(flag): os.remove(flag)
+                    p2 = sc.compile([cc, '-c', 'k.c', '-o', 'k2.o'], w); got2 = file_state(os.path.join(w, 'k2.o'))
+                    line2 = line + f' | next client: rc={p2.returncode} object {"equals direct compile" if got2 and want and got2[0] == want[0] else "missing/different"}; servers now {len(sc.server_pids())}; stderr: {p2.stderr.decode(errors="replace")[:120]!r}'
+                    samples.append(line2)
+                    if p2.returncode != 0 or not (got2 and want and got2[0] == want[0]) or len(sc.server_pids()) != 1:
+                        fails.append({'kind': 'client_did_not_start_server', 'detail': line2, 'ops': [line2]})
             finally:
                 sc.kill(); shutil.rmtree(d, ignore_errors=True)
     return {'kill_cases': n, 'fails': fails, 'samples': samples}
